@@ -432,8 +432,11 @@ def run_shell_evals(snippets, *, shell="bash", prelude="", isolate=False, locale
 def load_known(prop):
     known = {}
     fixed = {}
-    p = os.path.join(ROOT, "known_findings.jsonl")
-    if os.path.exists(p):
+    import glob
+    paths = [os.path.join(ROOT, "known_findings.jsonl")] + sorted(glob.glob(os.path.join(ROOT, "known_findings.d", "*.jsonl")))
+    for p in paths:
+        if not os.path.exists(p):
+            continue
         for l in open(p):
             l = l.strip()
             if not l or l.startswith("#"):
